@@ -32,6 +32,17 @@ def generate(rng, tier):
         r = rng.random()
         c = cc.gen_multiscale(rng) if r < 0.15 else cc.gen_kmedoids(rng) if r < 0.7 else cc.gen_hybrid(rng)
         c["extras"] = True
+        if c["kind"] == "hybrid" and c["metric"] != "matrix" and rng.random() < 0.3:
+            # rarely used: k-hybrid started from supplied centres that are not frames (centroid-like points);
+            # outside the Coq model (oracle only): every returned centre must still be a frame of the input
+            dim = len(c["X"][0])
+            k = rng.randint(1, min(3, c["n"]))
+            base = rng.sample(c["X"], k)       # a quarter unit away from k distinct frames: each attracts its frame
+            c["init_pts"] = [[p[0] + 0.25] + list(p[1:]) for p in base]
+            c["nclu"], c["cutoff"] = k, None          # no further centres: a new centre frame could empty a supplied cluster
+            c["n_iters"] = rng.randint(1, 3)
+            c["dtype"] = "float64"
+            c["extras"] = False
         cases.append(c)
     return cases
 
@@ -42,6 +53,16 @@ run_impl = cc.run_case
 def oracle(c, out):
     if "err" in out:
         return [("impl-error", "%s: %s" % (out["err"], out.get("msg")))]
+    if c.get("init_pts") is not None:
+        res = out["res"]
+        fails = []
+        if not res["centers_are_frames"] or any(not (0 <= i < c["n"]) for i in res["ctrs"]):
+            fails.append(("center-not-in-data", "k-hybrid from non-frame initial centres returned a centre that is not the frame at its index"))
+        if len(res["ctrs"]) != len(out["kc"]["ctrs"]):
+            fails.append(("k-changed", "hybrid k differs from k-centers k"))
+        if not out.get("X_unchanged", True):
+            fails.append(("input-modified", "data modified"))
+        return fails
     fails = cc.inv_failures(out)
     res = out["res"]
     n = c["n"]
@@ -67,7 +88,10 @@ def oracle(c, out):
     return fails
 
 
-coq_check = cc.coq_check
+def coq_check(c, out):
+    if c.get("init_pts") is not None:
+        return None        # non-frame initial centres are outside the model (frames as centres); oracle only
+    return cc.coq_check(c, out)
 
 
 def coq_show(c):
@@ -87,6 +111,8 @@ def nontrivial(c, out):
 
 def tags(c, out):
     t = cc.common_tags(c, out)
+    if c.get("init_pts") is not None:
+        t.append("hybrid-non-frame-init")
     p = out.get("prefix")
     if p and all(x is not None for x in p):
         costs = [cc.cost(x) for x in p]
@@ -97,5 +123,5 @@ def tags(c, out):
     return t
 
 
-ESSENTIAL_TAGS = ["multi-scale-data", "kmedoids", "hybrid", "start-cold", "start-centers", "start-state", "start-pairs", "explicit-proposals",
+ESSENTIAL_TAGS = ["hybrid-non-frame-init", "multi-scale-data", "kmedoids", "hybrid", "start-cold", "start-centers", "start-state", "start-pairs", "explicit-proposals",
                   "random-proposals", "some-sweep-lowered-cost", "some-sweep-changed-nothing", "estimator-form"]
